@@ -16,6 +16,36 @@ from desper.events import event_handler
 from harness.models.disp import Scripted, exc_name, dec_args, enc_args, split_list
 
 
+_DEAD_ATTR = {}
+
+
+def dead_container(w):
+    """The container in which the world keeps the entities awaiting deletion, found by behaviour
+    (which attribute gains a probe id on `delete_entity`), not by name: its iteration order is the
+    order of the sweep, which the model needs as a hint.  None when it cannot be identified."""
+    cls = type(w)
+    if cls not in _DEAD_ATTR:
+        name = None
+        try:
+            probe = desper.World()
+            marker = ('__probe__', 7)
+            before = {k: repr(v) for k, v in vars(probe).items()}
+            probe.delete_entity(marker)
+            for k, v in vars(probe).items():
+                if before.get(k) != repr(v):
+                    try:
+                        if marker in v:
+                            name = k
+                            break
+                    except TypeError:
+                        pass
+        except Exception:       # noqa
+            name = None
+        _DEAD_ATTR[cls] = name
+    name = _DEAD_ATTR[cls]
+    return None if name is None else getattr(w, name, None)
+
+
 def ent_py(code):
     return code if code < 1000 else f's{code}'
 
@@ -36,6 +66,7 @@ class Run:
         self.ents = []
         self.calls = {}
         self.hints = []
+        self.deferred = []
         self.direct = False
         meths = {'process'}
         for ln in lines:
@@ -163,13 +194,21 @@ class Run:
             r = w.remove_component(ent_py(int(t[1])), self.classes[int(t[2])])
             return 'None' if r is None else str(r._oid)
         elif k == 'delete':
+            if not int(t[2]):
+                self.deferred.append(int(t[1]))
             w.delete_entity(ent_py(int(t[1])), immediate=bool(int(t[2])))
         elif k == 'process':
-            dead = getattr(w, '_dead_entities', None)
+            dead = dead_container(w)
             if dead is not None:
                 h = 'hint sweep ' + (','.join(str(ent_code(e)) for e in dead) or '-')
                 self.hints.append(h)
                 self.obs.append(h)
+            else:
+                # sweep order unknown: scenarios in which it could matter cannot be compared
+                pending = [e for e in self.deferred if not w.entity_exists(ent_py(e))]
+                if len(set(pending)) > 1:
+                    self.obs.append('SKIP sweep order of several entities awaiting deletion is not observable')
+                self.deferred = []
             w.process(int(t[1]))
         elif k == 'clear':
             w.clear()
